@@ -11,7 +11,15 @@ ASSUME = ['per-link FIFO network model (SimTransport); reconnect only after both
 
 
 def specs(tier):
-    return raftjobs.common(tier)
+    from mc.jobs import J
+    js = list(raftjobs.common(tier))
+    # "never undone afterwards": a reported SUCCESS must survive the node's own compaction going wrong (the forked
+    # dump child fails or is killed) followed by a restart
+    own = [J('jd-fork-steady2-childfail:H1K1Q1P1', 'steady', dict(n=2, journal='file+dump', use_fork=True), dict(H=1, K=1, Q=1, P=1), dict(k=3),
+             clauses=('C01', 'C02', 'C04', 'C06'), extra_monitors=(('mc.monitors_c06', 'DurabilityMonitor', {}),))]
+    for j in own:
+        j['max_states'] = 250000 if tier == 'quick' else 2000000
+    return js + own
 
 
 def main(tier, seed, job_filter=None):
